@@ -9,7 +9,8 @@ base=/tmp/seedregress-$$
 mkdir -p $base
 missed=0; n=0
 for id in $ids; do
-  prop=${id:0:3}
+  # the check expected to catch it: the first entry of detected_by in the seed's meta.json (default: its own property)
+  prop=$(python3 -c "import json,sys; d=json.load(open('/verif/seeded/$id/meta.json')); print((d.get('detected_by') or ['${id:0:3}'])[0])" 2>/dev/null || echo ${id:0:3})
   wt=$base/$id
   git -C /repo worktree add --detach $wt HEAD >/dev/null 2>&1 || { echo "$id: cannot create worktree"; continue; }
   if ! git -C $wt apply /verif/seeded/$id/patch.diff 2>/dev/null; then
